@@ -77,6 +77,9 @@ type TCPServer struct {
 	loops             int
 	tlsEnabled        bool
 	allowThreadLock   bool
+
+	// simListener is the simulated listener of the verification seam (build tag verif); nil otherwise.
+	simListener simListener
 }
 
 // Connection is the interface presented to a [RequestHandlerFunc] for every
@@ -278,6 +281,9 @@ func (s *TCPServer) AcceptedConnections() int32 {
 // on, which is useful when the server was started on port 0. Returns nil
 // if the server has not started listening.
 func (s *TCPServer) ListenAddr() *net.TCPAddr {
+	if simEnabled && s.simListener != nil {
+		return s.listenAddr
+	}
 	if s.listener == nil {
 		return nil
 	}
@@ -300,6 +306,12 @@ func (s *TCPServer) EnableTLS() error {
 // accepting connections. The listener uses the address and [ListenConfig]
 // provided at construction time.
 func (s *TCPServer) Listen() error {
+	if simEnabled {
+		if l, ok, err := simListen(s.listenAddr.String()); ok {
+			s.simListener = l
+			return err
+		}
+	}
 	network := "tcp4"
 	if IsIPv6Addr(s.listenAddr) {
 		network = "tcp6"
@@ -341,6 +353,9 @@ func (s *TCPServer) ListenTLS() error {
 // calling Serve. Use [Server.Shutdown] or [TCPServer.Halt] from another
 // goroutine to stop the server.
 func (s *TCPServer) Serve() error {
+	if simEnabled && s.simListener != nil {
+		return s.serveSim()
+	}
 	if s.listener == nil {
 		return ErrNoListener
 	}
@@ -388,6 +403,9 @@ func (s *TCPServer) Shutdown(d time.Duration) error {
 		return nil
 	}
 	s.shutdownTimeout = d
+	if simEnabled && s.simListener != nil {
+		return s.simListener.Close()
+	}
 	return s.listener.Close()
 }
 
